@@ -68,6 +68,12 @@ class Lasso(Pattern):
     def reset(self):
         self.pos = 0
 
+    def __deepcopy__(self, memo):
+        # a copy of the pattern is a copy of its cursor; the harness runner behind it is not part of the pattern
+        c = Lasso(self.runner, self.pre, self.cyc)
+        c.pos = self.pos
+        return c
+
     def __next__(self):
         if self.pos < len(self.pre):
             it = self.pre[self.pos]
@@ -104,8 +110,12 @@ class Runner:
         self.q, self.tpb = q, tpb
         self.U = q * tpb
         self.dev = RecDevice()
-        self.tl = isobar.Timeline(tempo=120, output_device=self.dev,
-                                  clock_source=DummyClock(ticks_per_beat=tpb), ignore_exceptions=bool(tolerant))
+        # the tolerance mode is a public attribute: set it through the constructor or afterwards (as isobar.shorthand does)
+        late = (q + tpb) % 2 == 1
+        self.tl = isobar.Timeline(tempo=120, output_device=self.dev, clock_source=DummyClock(ticks_per_beat=tpb),
+                                  ignore_exceptions=(False if late else bool(tolerant)))
+        if late:
+            self.tl.ignore_exceptions = bool(tolerant)
         self.streams, self.tracks, self.ids, self.k, self.dead = {}, {}, {}, 0, False
 
     def beats(self, units):
